@@ -27,7 +27,9 @@ PROPS = {
         "level": "proof",
     },
     "C02": {
-        "gens": [{"name": "C02", "quick": 2500, "thorough": 12000}, {"name": "setters", "quick": 800, "thorough": 5000}],
+        "gens": [{"name": "C02", "quick": 2500, "thorough": 12000}, {"name": "setters", "quick": 800, "thorough": 5000},
+                 {"name": "C08", "quick": 150, "thorough": 1000}, {"name": "C03", "quick": 500, "thorough": 3000}],
+        "known_ok": ["fma-product-exponent-out-of-range"],
         "nontrivial": {"inexact", "range"},
         "rule": ARITH_RULE + "non-trivial = accuracy must be Below or Above",
         "level": "proof",
@@ -86,7 +88,8 @@ PROPS = {
         "level": "proof",
     },
     "C09": {
-        "gens": [{"name": "C09", "quick": 250, "thorough": 1500}, {"name": "setters", "quick": 600, "thorough": 4000}, {"name": "C20", "quick": 400, "thorough": 3000}],
+        "gens": [{"name": "C09", "quick": 250, "thorough": 1500}, {"name": "setters", "quick": 600, "thorough": 4000}, {"name": "C20", "quick": 400, "thorough": 3000},
+                 {"name": "C17", "quick": 800, "thorough": 4000}, {"name": "C05", "quick": 400, "thorough": 2000}, {"name": "C12", "quick": 500, "thorough": 3000}],
         "nontrivial": {"inexact", "range", "alias", "special"},
         "rule": ARITH_RULE + "frame rule checked on Go's states and on the backing arrays up to capacity",
         "level": "proof",
